@@ -435,10 +435,10 @@ theorem schedKids_perm {order ns : List String} (ts : List Ty) (vs : List Payloa
   rw [hs] at h
   exact h
 
-theorem lookupVal_sched (cs : List (PathStep × Value)) : ∀ (order : List String),
+theorem lookupVal_sched (g : PathStep × Value → Value) (cs : List (PathStep × Value)) : ∀ (order : List String),
     (∀ m ∈ order, ∃ c, findAttr m cs = some c) → ∀ n ∈ order,
-    lookupVal n order ((order.filterMap (fun m => findAttr m cs)).map (·.2)) =
-      (findAttr n cs).map (·.2)
+    lookupVal n order ((order.filterMap (fun m => findAttr m cs)).map g) =
+      (findAttr n cs).map g
   | [], _, _, h => by cases h
   | m :: rest, hall, n, hn => by
     obtain ⟨c, hc⟩ := hall m (by simp)
@@ -448,24 +448,24 @@ theorem lookupVal_sched (cs : List (PathStep × Value)) : ∀ (order : List Stri
     · simp only [hmn, if_false]
       rcases List.mem_cons.mp hn with rfl | hn
       · exact absurd rfl hmn
-      · exact lookupVal_sched cs rest (fun x hx => hall x (List.mem_cons_of_mem _ hx)) n hn
+      · exact lookupVal_sched g cs rest (fun x hx => hall x (List.mem_cons_of_mem _ hx)) n hn
 
 /-- results collected in schedule order, read back in sorted order, are the
 members' results in stored order -/
-theorem unsched_sched {order ns : List String} (ts : List Ty) (vs : List Payload)
+theorem unsched_sched (g : PathStep × Value → Value) {order ns : List String} (ts : List Ty) (vs : List Payload)
     (hp : order.Perm ns) (hnd : ns.Nodup) (h1 : ns.length = ts.length) (h2 : ts.length = vs.length) :
-    unsched ns order ((schedKids order (objKids ns ts vs)).map (·.2)) =
-      (objKids ns ts vs).map (·.2) := by
+    unsched ns order ((schedKids order (objKids ns ts vs)).map g) =
+      (objKids ns ts vs).map g := by
   have hall : ∀ m ∈ order, ∃ c, findAttr m (objKids ns ts vs) = some c :=
     fun m hm => findAttr_some_of_mem ns ts vs m h1 h2 (hp.mem_iff.mp hm)
   have hself := schedKids_self ns ts vs hnd h1 h2
   simp only [unsched, schedKids] at hself ⊢
   have : ns.filterMap (fun n => lookupVal n order
-        ((order.filterMap (fun m => findAttr m (objKids ns ts vs))).map (·.2))) =
-      ns.filterMap (fun n => (findAttr n (objKids ns ts vs)).map (·.2)) := by
+        ((order.filterMap (fun m => findAttr m (objKids ns ts vs))).map g)) =
+      ns.filterMap (fun n => (findAttr n (objKids ns ts vs)).map g) := by
     apply filterMap_congr'
     intro n hn
-    exact lookupVal_sched _ order hall n (hp.mem_iff.mpr hn)
+    exact lookupVal_sched g _ order hall n (hp.mem_iff.mpr hn)
   rw [this, ← hself, List.map_filterMap]
   rw [hself]
 
@@ -665,7 +665,7 @@ theorem rebuild_id {X : SetOracle} (hX : IterPerm X) {σ : Sched} (hσ : SchedOk
           fun c hc => ih c (hperm.mem_iff.mp hc)
         rw [transformKids_id rec' ev path _ log ih']
         simp only
-        rw [unsched_sched ts vs (hσ path ns) hnd h1 htv]
+        rw [unsched_sched (·.2) ts vs (hσ path ns) hnd h1 htv]
         have hv' := objKids_vals ns ts vs h1 htv
         simp only [objectVal, hv'.1, hv'.2, Value.marks, ← hos]
         rw [hv] at hrestore
